@@ -432,6 +432,8 @@ nni_msgq_resize(nni_msgq *mq, int cap)
 out:
 	MSGQ_VERIF_CHECK(mq, "resize");
 	// Wake everyone up -- we changed everything.
+	nni_msgq_run_putq(mq);
+	nni_msgq_run_notify(mq);
 	nni_mtx_unlock(&mq->mq_lock);
 	return (0);
 }
